@@ -769,15 +769,45 @@ impl Database {
         key_disk_addr: u64,
         opp_id: u64,
     ) {
-        self.set_value_version(
-            key,
-            &value.value,
-            value.version,
-            ValueStatus::Ok,
-            value_disk_addr,
-            key_disk_addr,
-            opp_id,
-        );
+        // `value` is the copy the snapshot took before writing to disk. Only mark the key as
+        // clean if it was not touched in the meantime, a newer write (or a remove) must survive.
+        let mut db = self.map.write().unwrap();
+        match db.get_mut(key) {
+            Some(current)
+                if current.opp_id == value.opp_id
+                    && current.version == value.version
+                    && current.state == value.state =>
+            {
+                current.state = ValueStatus::Ok;
+                current.value_disk_addr = value_disk_addr;
+                current.key_disk_addr = key_disk_addr;
+                current.opp_id = opp_id;
+            }
+            Some(current) => {
+                // Changed while the snapshot was being written, disk holds the older copy.
+                // Keep the newer value pending and remember where the key lives on disk.
+                current.value_disk_addr = value_disk_addr;
+                current.key_disk_addr = key_disk_addr;
+                if current.state == ValueStatus::New {
+                    current.state = ValueStatus::Updated;
+                }
+            }
+            None => {
+                // Removed while the snapshot was being written (it was not on disk before, so the
+                // remove dropped it from memory). It is on disk now, keep a tombstone for it.
+                db.insert(
+                    key.clone(),
+                    Value {
+                        value: String::from("<Empty>"),
+                        version: value.version + 1,
+                        state: ValueStatus::Deleted,
+                        value_disk_addr,
+                        key_disk_addr,
+                        opp_id,
+                    },
+                );
+            }
+        }
     }
 
     /// apply the change to the database
